@@ -369,6 +369,7 @@ pub fn build_graph(spec: &GraphSpec) -> FnGraph<TestFn> {
         };
     }
     apply_batches(&mut b, &ids, &spec.batches);
+    let _watched = crate::watch::build_guard(spec);
     b.build()
 }
 
